@@ -61,6 +61,7 @@ Inductive kind :=
 Record item := mkItem {
   it_id : gid;
   it_name : option string;       (* ItemNode::name(): the item's name after serde(rename = "..") *)
+  it_raw : option string;        (* item.name: the Rust name (what a reference to the type is formatted as) *)
   it_kind : kind;
   it_skip : bool;                (* ItemNode::should_skip() *)
   it_wire : option string;       (* field_name(..) / variant_name(..) with respect to its parent *)
@@ -227,7 +228,7 @@ Definition rename_kind (r : N -> N) (k : kind) : kind :=
   | k => k
   end.
 Definition rename_item (rho : renum) (x : item) : item :=
-  mkItem (crate_of x, rho (crate_of x) (lid x)) (it_name x) (rename_kind (rho (crate_of x)) (it_kind x))
+  mkItem (crate_of x, rho (crate_of x) (lid x)) (it_name x) (it_raw x) (rename_kind (rho (crate_of x)) (it_kind x))
          (it_skip x) (it_wire x) (it_fmt x) (it_range x).
 Definition rename_edges (rho : renum) (es : edges) : edges :=
   map (fun e => (rename_item rho (fst e), rename_item rho (snd e))) es.
@@ -357,6 +358,7 @@ Definition item_eqb_shallow (a b : item) : bool :=
      format/range terms, which are compared too *)
   gid_eqb (it_id a) (it_id b)
   && match it_name a, it_name b with Some s, Some t => String.eqb s t | None, None => true | _, _ => false end
+  && match it_raw a, it_raw b with Some s, Some t => String.eqb s t | None, None => true | _, _ => false end
   && Bool.eqb (it_skip a) (it_skip b)
   && match it_wire a, it_wire b with Some s, Some t => String.eqb s t | None, None => true | _, _ => false end
   && match it_fmt a, it_fmt b with Some s, Some t => fmt_eqb s t | None, None => true | _, _ => false end
